@@ -259,24 +259,20 @@ Section Safe.
     apply save_nft_ok in H as (v & Hv' & -> & H & _). split; [|exact I].
     eapply StoreOK_wr; eauto. apply goodw_if; [auto|congruence].
   Qed.
-  (* F11: the third premise (the incoming token carries metadata) is what the open finding F11 forces: with a
-     metadata-less incoming token and a stored destination entry that has metadata, the model (and the Go code)
-     dereferences the nil metadata.  It is the ONLY place where the exclusion enters: once
-     [add_nft_to_destination] fails with EWrongNFTOnDestination instead ([match t_meta t with None => fail _ ...]),
-     [nopanic_add_nft_to_destination] loses its [t_meta c <> None -> t_meta t <> None] premise, this lemma loses
-     its third premise, and with it [safe_transfer_one_sender]'s second premise, the second premise of
-     [safe_multi_sender_loop], [multi_local_items_nft] / [f11_excluded] in NoPanicTransfers.v disappear. *)
+  (* no premise on the incoming token's metadata: since the F11 repair a metadata-less incoming token meeting a
+     stored entry with metadata is rejected (EWrongNFTOnDestination), not dereferenced *)
   Lemma safe_add_nft_to_destination dst x t verify rae :
-    wf_token t -> (strict -> t_value t <> None) -> (strict -> t_meta t <> None) ->
+    wf_token t -> (strict -> t_value t <> None) ->
     safe (add_nft_to_destination E dst (P ++ x) t verify rae) (fun t' => exists v, t' = set_value t (Some v)).
   Proof.
-    intros Hw Hv Hm. apply safe_of.
-    - intros s Hs Hst. apply (nopanic_add_nft_to_destination E Hc); [auto|].
-      intros c Hcur. rewrite nft_key_app in Hcur. split; [eapply Hs; eauto|auto].
+    intros Hw Hv. apply safe_of.
+    - intros s Hs Hst. apply (nopanic_add_nft_to_destination' E Hc); [auto|].
+      intros c Hcur. rewrite nft_key_app in Hcur. eapply Hs; eauto.
     - intros s t' s' Hs H.
       apply (add_nft_to_destination_ok E Hc) in H as (cur & v & cv & _ & _ & _ & _ & -> & _ & _ & _ & H).
       split; [|eauto]. eapply StoreOK_wr; eauto. apply goodw_if; [apply wf_set_value; exact Hw|discriminate].
   Qed.
+
   (* well-formedness of the tokens the functions build *)
   Lemma wf_set_meta_uris t m u : wf_token t -> t_meta t = Some m -> wf_token (set_meta t (Some (set_uris m u))).
   Proof. unfold wf_token. intros [H1 H2] Hm. rewrite Hm in H2. split; [exact H1|exact H2]. Qed.
@@ -345,7 +341,7 @@ Ltac safe_leaf E Hc :=
     | apply (safe_meta_of E); safe_side
     | apply (safe_save_nft E Hc); [wf_solve|safe_side]
     | apply (safe_save_esdt_data E Hc); [wf_solve|safe_side]
-    | apply (safe_add_nft_to_destination E Hc); [wf_solve|safe_side|safe_side]
+    | apply (safe_add_nft_to_destination E Hc); [wf_solve|safe_side]
     | apply (safe_save_kv E); first [apply goodw_nil | assumption]
     | apply (safe_upd_acct E); reflexivity
     | solve [eauto with safe] ].
